@@ -37,6 +37,11 @@ def avl_runs(tier):
         {'name': 'avl_hist', 'sources': ['harness/avl.c'], 'lib_tus': ['iv_avl'],
          'params': {'mode': 1, 'L': L}, 'covers': ['avl.history-complete', 'avl.duplicate-insert'],
          'bounds': 'all histories of %d mixed inserts/deletes from empty, unknown 64-bit keys' % L},
+        {'name': 'avl_scale', 'sources': ['harness/avl.c'], 'lib_tus': ['iv_avl'],
+         'params': {'mode': 2, 'N': 33000}, 'covers': ['avl.height-16-reached', 'avl.scale-complete'],
+         'opts': {'max_steps': 400000000},
+         'bounds': 'one concrete history: 33000 ascending inserts (height 16), 24750 deletes; heights, balance, order '
+                   'and traversal checked by the independent walk'},
     ]
 
 
@@ -277,6 +282,10 @@ def c20_runs(tier):
          run('buffer.poll', cv, scenario=1, W=2, M=2 if q else 3, poll=1)]
     if q:
         r.append(run('buffer.W3M3.noinst', cv[:5], scenario=1, W=3, M=3, acts=1))
+    # scale: one read that fills the library's 64 KiB buffer to the last byte (4096 name-less events)
+    r.append(run('full-buffer', ['inotify.read-fills-the-whole-buffer', 'inotify.delivered', 'inotify.complete-run'],
+                 scenario=1, W=2, M=2, acts=0, fullbuf=1))
+    r[-1]['opts'] = {'max_steps': 60000000}
     return r
 
 
@@ -317,6 +326,10 @@ def c08_runs(tier, hb=0):
     for m, nm in ((2, 'ppoll'), (3, 'poll')):
         r.append(mt_run('first-registration-fails.' + nm, 'harness/event.c', cv + ['C07.event-register-fails'],
                         preempt=1 if q else 2, E=1, P=1, Q=1, method=m, regfail=2, hb=hb))
+    # scale: many events of one owner pending at once (one dispatch pass has to serve them all)
+    for m, nm in ((1, 'epoll'), (3, 'poll')):
+        r.append(mt_run('many-events-pending.' + nm, 'harness/event.c', ['event.handler-ran', 'event.quiescent'],
+                        preempt=0, E=36, P=0, Q=0, method=m, selfpost=2, hb=hb))
     # the owner posts and unregisters a still-pending event before its loop runs; a poster posts behind it
     for m, nm in ((1, 'epoll'), (2, 'raw')):
         r.append(mt_run('owner-pre-ops.' + nm, 'harness/event.c', cv + ['event.unregister-while-pending'],
@@ -404,7 +417,7 @@ def c11_runs(tier, hb=0):
          # is still inside its collection loop when the next one arrives and the owner is already reacting
          mt_run('two-loops.reaper-elsewhere.paced', h,
                 ['wait.reaper-is-another-thread', 'wait.termination-delivered', 'wait.batch-of-several-statuses'],
-                preempt=1 if q else 2, C=3, strangers=0, events=2 if q else 3, twoloops=2, ops=1, worldwait=1, hb=hb),
+                preempt=1, C=3, strangers=0, events=2 if q else 3, twoloops=2, ops=1, worldwait=1, hb=hb),
          # the owner unregisters an interest (an interior node of the shared tree) on its own while the
          # reaper thread may be collecting that very child
          mt_run('two-loops.spontaneous-unregister', h,
@@ -461,6 +474,10 @@ def work_runs(tier, hb=0):
         # with work queued round after round (its zero poll timeout repeats)
         mt_run('continuation.chain', h, base + ['work.continuation-from-worker', 'work.pool-released'],
                preempt=1 if q else 2, W=8, max=1, put=3, cont=2, burst=1, tfd=1, hb=hb),
+        # scale: dozens of completions queued for the owner at one wake-up (the worker finishes the whole burst
+        # while the owner sleeps)
+        mt_run('burst40.max1', h, ['work.pool-released', 'work.loop-returned-and-everything-released'],
+               preempt=0, W=40, max=1, put=1, wblock=0, hb=hb),
         mt_run('saturated.max1', h, base + ['work.quiescent'], preempt=p2, W=3, max=1, put=0, hb=hb),
         mt_run('null-pool', h, ['work.loop-returned-and-everything-released'], preempt=0, W=2, nullpool=1, hb=hb),
         mt_run('iv_thread', h, ['thread.joined-and-released'], preempt=2 if q else 3, threadtest=1, hb=hb),
